@@ -54,6 +54,8 @@ def _code_objects(code: types.CodeType):
 def cross_check(prog: Program, modules: list[str] | None = None) -> dict:
     checked = 0
     mism = []
+    # the bytecode is that of the source as written: compare against the model before helper dissolution
+    prog = Program(prog.root, prog.overlay, inline=False)
     for mname, m in prog.modules.items():
         if modules is not None and mname not in modules:
             continue
